@@ -532,6 +532,7 @@ def oracle(env):
     res = V.pmap(w_base, items, timeout=60)
     V.log(f"[C15] oracle bases: {len(items)} in {time.time() - t0:.1f}s")
     bunder = bover = 0
+    heavy = []
     stride = max(1, len(items) // 20000)
     for idx, ((n, b), (st, r)) in enumerate(zip(items, res)):
         inp = {"kind": "base", "n": n, "b": b}
@@ -554,8 +555,12 @@ def oracle(env):
             bunder += 1
         if e > 0 and b ** e > n:
             bover += 1
-        if idx % stride == 0:
-            extra.append((f"CToBaseE {e}%nat {V.cZ(n)} {V.cZ(b)} {czl(ds)}", {"fn": "to_base(elem)", "n": n, "b": b}))
+        case = (f"CToBaseE {e}%nat {V.cZ(n)} {V.cZ(b)} {czl(ds)}", {"fn": "to_base(elem)", "n": n, "b": b})
+        if e > 64:
+            heavy.append(case)  # the model recomputes b^i at every position like the code: cubic in e inside Coq
+        elif idx % stride == 0:
+            extra.append(case)
+    extra += rng.sample(heavy, min(len(heavy), env.budget(100, 400)))
     env.count(len(items), (f"base:{b}:{n}" for n, b in items))
     notes["bases"] = {"bases": "2..300", "cases": len(items), "max_n": max(n for n, _ in items),
                       "exponent_under_estimates(b^(e+1)<=n)": bunder, "exponent_over_estimates": bover}
